@@ -275,4 +275,141 @@ theorem roundHalfEven_near (x : Fp) (n : Nat) (h : |x.abs - n| < 1 / 2) : roundH
 theorem roundHalfEven_err (x : Fp) : |(roundHalfEven x : ℚ) - x.abs| ≤ 1 / 2 := by
   rw [← val_ratio]; exact roundNE_err _ _ (valD_pos x)
 
+/-! ### floor / fraction and exactly representable quotients (used by the duration float steps) -/
+
+/-- which way `N / D` is rounded when an integer `n` is closer than 1/2 -/
+theorem near_cases (N D n : Nat) (hD : 0 < D) (h1 : 2 * N < 2 * (n * D) + D) (h2 : 2 * (n * D) < 2 * N + D) :
+    (N / D = n ∧ 2 * (N % D) < D) ∨ (N / D + 1 = n ∧ D < 2 * (N % D)) := by
+  rcases Nat.lt_or_ge N (n * D) with hlt | hge
+  · obtain ⟨n', rfl⟩ : ∃ n', n = n' + 1 := by
+      cases n with
+      | zero => simp at hlt
+      | succ n' => exact ⟨n', rfl⟩
+    have hexp : (n' + 1) * D = n' * D + D := by ring
+    rw [hexp] at hlt h1 h2
+    obtain ⟨r, hr⟩ : ∃ r, N = r + n' * D := ⟨N - n' * D, by omega⟩
+    have hrD : r < D := by omega
+    have hq : N / D = n' := by
+      rw [hr, Nat.add_mul_div_right _ _ hD, Nat.div_eq_of_lt hrD]; simp
+    have hm : N % D = r := by
+      rw [hr, Nat.add_mul_mod_self_right, Nat.mod_eq_of_lt hrD]
+    right; rw [hq, hm]; constructor <;> omega
+  · obtain ⟨r, hr⟩ : ∃ r, N = r + n * D := ⟨N - n * D, by omega⟩
+    have hrD : r < D := by omega
+    have hq : N / D = n := by
+      rw [hr, Nat.add_mul_div_right _ _ hD, Nat.div_eq_of_lt hrD]; simp
+    have hm : N % D = r := by
+      rw [hr, Nat.add_mul_mod_self_right, Nat.mod_eq_of_lt hrD]
+    left; rw [hq, hm]; constructor <;> omega
+
+theorem near_cases_fp (x : Fp) (n : Nat) (h : |x.abs - n| < 1 / 2) :
+    (valN x / valD x = n ∧ 2 * (valN x % valD x) < valD x) ∨
+      (valN x / valD x + 1 = n ∧ valD x < 2 * (valN x % valD x)) := by
+  have hD : (0:ℚ) < valD x := by exact_mod_cast valD_pos x
+  rw [← val_ratio, abs_lt] at h
+  obtain ⟨h1, h2⟩ := h
+  have e : (valN x : ℚ) / valD x - n = ((valN x : ℚ) - n * valD x) / valD x := by field_simp
+  rw [e] at h1 h2
+  rw [lt_div_iff₀ hD] at h1
+  rw [div_lt_iff₀ hD] at h2
+  apply near_cases _ _ _ (valD_pos x)
+  · have : (2:ℚ) * valN x < 2 * (n * valD x) + valD x := by linarith
+    exact_mod_cast this
+  · have : (2:ℚ) * (n * valD x) < 2 * valN x + valD x := by linarith
+    exact_mod_cast this
+
+/-- `math.modf`: integral part … -/
+theorem floorNat_eq (x : Fp) (s : Nat) (h1 : (s : ℚ) ≤ x.abs) (h2 : x.abs < s + 1) : floorNat x = s := by
+  have hD : (0:ℚ) < valD x := by exact_mod_cast valD_pos x
+  rw [← val_ratio] at h1 h2
+  rw [le_div_iff₀ hD] at h1
+  rw [div_lt_iff₀ hD] at h2
+  have a1 : s * valD x ≤ valN x := by exact_mod_cast h1
+  have a2 : valN x < (s + 1) * valD x := by exact_mod_cast h2
+  unfold floorNat
+  apply Nat.div_eq_of_lt_le
+  · rw [Nat.mul_comm] at a1; rwa [Nat.mul_comm]
+  · rwa [Nat.mul_comm] at a2 ⊢
+
+/-- … and fractional part -/
+theorem frac_ratio (x : Fp) : ((valN x % valD x : ℕ) : ℚ) / valD x = x.abs - (floorNat x : ℚ) := by
+  have hD : (0:ℚ) < valD x := by exact_mod_cast valD_pos x
+  have hdm : (valN x : ℚ) = (valD x : ℚ) * (valN x / valD x : ℕ) + (valN x % valD x : ℕ) := by
+    exact_mod_cast (Nat.div_add_mod (valN x) (valD x)).symm
+  rw [← val_ratio]
+  unfold floorNat
+  rw [eq_sub_iff_add_eq, div_add' _ _ _ (ne_of_gt hD), div_left_inj' (ne_of_gt hD)]
+  linarith
+
+/-- value computed by `rnPos`, in terms of the rounded scaled quotient -/
+theorem rnPos_val (a b : Nat) :
+    ((rnPos a b).1 : ℚ) * (2:ℚ) ^ (rnPos a b).2 =
+      (roundNE (scaleN a (expOf a b)) (scaleD b (expOf a b)) : ℚ) * (2:ℚ) ^ (expOf a b) := by
+  have h2 : (2:ℚ) ≠ 0 := by norm_num
+  have hdef : rnPos a b = if roundNE (scaleN a (expOf a b)) (scaleD b (expOf a b)) = 2 ^ 53
+      then (2 ^ 52, expOf a b + 1) else (roundNE (scaleN a (expOf a b)) (scaleD b (expOf a b)), expOf a b) := rfl
+  rw [hdef]
+  split
+  · rename_i h
+    rw [h, zpow_add₀ h2]; push_cast; ring
+  · rfl
+
+/-- an integer quotient below `2^53` is represented exactly -/
+theorem rnRat_exact (neg : Bool) (a b q : Nat) (hb : 0 < b) (hq : a = q * b) (hlt : q < 2 ^ 53) :
+    (rnRat neg a b).abs = q := by
+  unfold rnRat Fp.abs
+  split
+  · rename_i h0
+    have : q = 0 := by
+      rcases Nat.eq_zero_or_pos q with h | h
+      · exact h
+      · exfalso; have := Nat.mul_pos h hb; omega
+    simp [this]
+  · rename_i h0
+    have ha : 0 < a := Nat.pos_of_ne_zero h0
+    show ((rnPos a b).1 : ℚ) * (2:ℚ) ^ (rnPos a b).2 = q
+    rw [rnPos_val]
+    obtain ⟨lo, hi⟩ := expOf_spec a b ha hb
+    set e := expOf a b with he
+    have hbq : (0:ℚ) < b := by exact_mod_cast hb
+    have hab : (a:ℚ) / b = q := by rw [hq]; push_cast; field_simp
+    rw [hab] at lo
+    have h2 : (2:ℚ) ≠ 0 := by norm_num
+    -- e ≤ 0
+    have hle : e ≤ 0 := by
+      by_contra hgt
+      have hgt' : (1:ℤ) ≤ e := by omega
+      have hz : (2:ℚ) ^ (-e) ≤ (2:ℚ) ^ (-1:ℤ) := zpow_le_zpow_right₀ (by norm_num) (by omega)
+      have hq0 : (0:ℚ) ≤ q := by positivity
+      have hq53 : (q:ℚ) < 2 ^ 53 := by exact_mod_cast hlt
+      have : (q:ℚ) * (2:ℚ) ^ (-e) ≤ q * (2:ℚ) ^ (-1:ℤ) := mul_le_mul_of_nonneg_left hz hq0
+      norm_num at this lo
+      linarith
+    obtain ⟨k, hk⟩ := Int.exists_eq_neg_ofNat hle
+    have hN : scaleN a e = a * 2 ^ k := by
+      unfold scaleN
+      rw [hk]
+      by_cases h0 : (0:ℤ) ≤ -(k:ℤ)
+      · have : k = 0 := by omega
+        simp [this]
+      · have hk0 : k ≠ 0 := by omega
+        simp [hk0]
+    have hDd : scaleD b e = b := by
+      unfold scaleD
+      rw [hk]
+      by_cases h0 : (0:ℤ) ≤ -(k:ℤ)
+      · have : k = 0 := by omega
+        simp [this]
+      · have hk0 : k ≠ 0 := by omega
+        simp [hk0]
+    have hdiv : scaleN a e = (q * 2 ^ k) * scaleD b e := by rw [hN, hDd, hq]; ring
+    have hr : roundNE (scaleN a e) (scaleD b e) = q * 2 ^ k := by
+      apply roundNE_near _ _ _ (by rw [hDd]; exact hb)
+      · rw [hdiv]; have := scaleD_pos b e hb; omega
+      · rw [hdiv]; have := scaleD_pos b e hb; omega
+    rw [hr, hk]
+    push_cast
+    rw [zpow_neg, zpow_natCast]
+    field_simp
+
 end Sdc.Fp64
